@@ -258,3 +258,16 @@ TEXT["C07"] = dict(
     level_note="trusts std::stable_sort as the reference and TSan/ASan reports; no controlled scheduler here - the merge "
                "threads do not synchronise with each other, so interleavings only matter through overlapping writes, which "
                "the write counters and TSan observe directly")
+TEXT["C06"] = dict(
+    engine="ledger+alloc",
+    design_ref="DESIGN.md section 4, C06",
+    technique="runtime differential monitor vs std::stable_sort with (key, original index) elements + element-lifetime ledger, on real threads under ASan+LSan (memory, leaked temporaries) and TSan (races)",
+    level_text="Sizes 0..300 are covered densely (so fewer elements than threads and uneven slices are the norm), with "
+               "duplicate-heavy, sorted, reversed and random keys, 1..32 threads, both splitting strategies, three "
+               "oversampling factors and both comparators. Stable sorts must equal std::stable_sort element by element; "
+               "unstable ones must be sorted permutations. Heap-owning ledger elements make every temporary copy "
+               "visible: the number of live elements must be unchanged by the call, and ASan/LSan see reads of dead "
+               "storage and leaks; TSan watches real executions for races (the barriers' own interleavings are the "
+               "subject of C11). Exploration: held on the cases and OS schedules observed.",
+    level_note="trusts std::stable_sort as the reference and the sanitizers' reports; termination only as absence of a "
+               "watchdog expiry")
